@@ -188,8 +188,8 @@ class LDMService:
         subscription: SubscriptionInfo
         """
         with self._lock:
-            if subscription in self.subscriptions:
-                self.subscriptions.remove(subscription)
+            # every equal entry goes: a consumer may have subscribed twice with an identical request
+            self.subscriptions = [s for s in self.subscriptions if s != subscription]
             self.last_checked_subscriptions_time.pop(subscription, None)
 
     def find_key_paths_in_list(self, target_key: str, search_result: list) -> list[str]:
